@@ -24,57 +24,67 @@ def getAlleles (I : Inst) (c : Nat) (bs : List Bool) (t : Nat) : Option (List (N
         if best0 == best1 then 3 else bitOf bestA p
       (hap 0, hap 1)))
 
-/-! ## witness: backtrace by recomputation (any optimal witness is admissible) -/
+/-! ## witness: backtrace by recomputation (any optimal witness is admissible)
 
+The code stores, per projection entry, the index and transmission value that attained the minimum
+(`index_backtrace_table`, `transmission_backtrace_table`) and follows them from the optimal cell of the last
+column (`compute_table`); `get_optimal_partitioning` then reads every read's bit off the index path.  The model
+recomputes the arg-minima from the projection tables instead of storing them: at cell `(idx, t)` of column
+`c+1` it picks a previous transmission value `j` attaining the inner minimum of `dpCell`, then an index of
+column `c` with the same forward projection attaining the projection entry.  Which of several equally good
+witnesses is found (the Gray-code visiting order, `<` vs `<=`) is not reproduced. -/
+
+/-- first element attaining the minimum of `f` over `l` (every `f a` is evaluated once); `none` iff the minimum is `none` -/
 def argminOver {α} (l : List α) (f : α → Option Nat) : Option α :=
-  l.foldl (fun best a => match best with
-    | none => if (f a).isSome then some a else none
-    | some b => match f a, f b with
-      | some x, some y => if x < y then some a else some b
-      | _, _ => some b) none
+  let vals := l.map (fun a => (a, f a))
+  let m := minOver vals (·.2)
+  if m.isNone then none else (vals.find? (fun av => av.2 == m)).map (·.1)
 
-/-- all tables `0..ncols-2` -/
-def allTables (I : Inst) : List (Array (Option Nat)) :=
-  (List.range (I.ncols - 1)).map (tableAt I)
+/-- projection tables of columns `c, c-1, …, 0` (newest first), each computed once -/
+def tablesDown (I : Inst) : Nat → List (Array (Option Nat))
+  | 0 => [projTable I 0 #[]]
+  | c + 1 =>
+    match tablesDown I c with
+    | [] => []
+    | t :: ts => projTable I (c + 1) t :: t :: ts
 
-/-- index path and transmission path, last column first resolved; returns per column `(idx, t)` -/
+/-- `backtrace I c tabs idx t`: the path `[(idx_0, t_0), …, (idx_c, t_c) = (idx, t)]` ending in cell `(idx, t)` of
+column `c`; `tabs` = projection tables of columns `c-1, …, 0` -/
+def backtrace (I : Inst) : Nat → List (Array (Option Nat)) → Nat → Nat → Option (List (Nat × Nat))
+  | 0, _, idx, t => some [(idx, t)]
+  | c + 1, tabs, idx, t =>
+    let prev := tabs.headD #[]
+    let bp := idx % 2 ^ (I.sharedAt c).length
+    match argminOver (List.range I.ntrans) (fun j =>
+        cadd (prev.getD (bp * I.ntrans + j) none) (some (popcount (t ^^^ j) * I.recombAt (c + 1)))) with
+    | none => none
+    | some j =>
+      let k := (I.activeAt c).length
+      let cands := (List.range (2 ^ k)).filter (fun i => natOfBits (fwdBits I c (bitsOf k i)) == bp)
+      match argminOver cands (fun i => dpCell I c (tabs.tail.headD #[]) i j) with
+      | none => none
+      | some i => (backtrace I c tabs.tail i j).map (· ++ [(idx, t)])
+
+/-- index path and transmission path: per column `(idx, t)`, column 0 first -/
 def witnessPath (I : Inst) : Option (List (Nat × Nat)) :=
   if I.ncols = 0 then some []
   else
-    let tabs := allTables I
     let last := I.ncols - 1
-    let prevOf (c : Nat) : Array (Option Nat) := if c = 0 then #[] else tabs.getD (c - 1) #[]
-    match argminOver (pairs (2 ^ (I.activeAt last).length) I.ntrans) (fun it => dpCell I last (prevOf last) it.1 it.2) with
+    let tabs := if last = 0 then [] else tablesDown I (last - 1)
+    match argminOver (pairs (2 ^ (I.activeAt last).length) I.ntrans)
+        (fun it => dpCell I last (tabs.headD #[]) it.1 it.2) with
     | none => none
-    | some start =>
-      -- walk back: at column c with chosen (idx, t): choose j minimising prev + recomb, then idx' in column c-1
-      let rec go (c : Nat) (cur : Nat × Nat) (acc : List (Nat × Nat)) : Nat → Option (List (Nat × Nat))
-        | 0 => some (cur :: acc)
-        | fuel + 1 =>
-          if c = 0 then some (cur :: acc)
-          else
-            let bp := cur.1 % 2 ^ (I.sharedAt (c - 1)).length
-            let prev := prevOf c
-            match argminOver (List.range I.ntrans) (fun j =>
-                cadd (prev.getD (bp * I.ntrans + j) none) (some (popcount (cur.2 ^^^ j) * I.recombAt c))) with
-            | none => none
-            | some j =>
-              let k := (I.activeAt (c - 1)).length
-              let cands := (List.range (2 ^ k)).filter (fun i => natOfBits (fwdBits I (c - 1) (bitsOf k i)) == bp)
-              match argminOver cands (fun i => dpCell I (c - 1) (prevOf (c - 1)) i j) with
-              | none => none
-              | some i => go (c - 1) (i, j) (cur :: acc) fuel
-      go last start [] I.ncols
+    | some start => backtrace I last tabs start.1 start.2
 
-/-- bipartition of all reads (bit set = haplotype 1) and transmission vector -/
+/-- the bit of read `r` in the index `idx` of column `c` (`false` if `r` is not active there) -/
+def bitInCol (I : Inst) (c idx r : Nat) : Bool :=
+  (((I.activeAt c).zip (bitsOf (I.activeAt c).length idx)).lookup r).getD false
+
+/-- bipartition of all reads (bit set = haplotype 1), read off the index path at each read's first column,
+and the transmission vector (`get_optimal_partitioning`, `get_super_reads`' transmission vector) -/
 def witness (I : Inst) : Option (List Bool × List Nat) :=
   (witnessPath I).map (fun path =>
-    let beta := (List.range I.nreads).map (fun r =>
-      -- the bit of read r in its first column
-      let c := (I.read r).first
-      match path[c]? with
-      | some (idx, _) => idx.testBit ((I.activeAt c).idxOf r)
-      | none => false)
-    (beta, path.map (·.2)))
+    ((List.range I.nreads).map (fun r => bitInCol I (I.read r).first (path.getD (I.read r).first (0, 0)).1 r),
+     path.map (·.2)))
 
 end WhVerif.C01
